@@ -1,7 +1,7 @@
 """C09 — half-open circuit breaker lets through at most the permitted trial calls."""
 from ..core import graph, Call, peel, leaves, show, N
 from ..util import *
-from .cb_common import CB, CRATE, check_no_evict_in_half_open, check_window_dispatch, check_stats_partition
+from .cb_common import cb_view, CB, CRATE, check_no_evict_in_half_open, check_window_dispatch, check_stats_partition
 
 EXPLANATION = (
     "Decides T-RESERVE on the admission function: every path that admits a call outside the Closed arm (the "
@@ -28,8 +28,9 @@ def rkey(what):
 def run(facts, tr, rep):
     # service-level rules on the shallow view (free helpers, async helpers and glue methods inlined; the circuit's own
     # methods stay calls and are found by role); clauses about one circuit method use its fully inlined body
+    facts0, tr0 = facts, tr
     facts, tr = facts.shallow, tr.shallow
-    cb = CB(facts, tr, rep)
+    cb, facts, tr = cb_view(facts0, tr0, rep)
     if not cb.ok or cb.admission is None:
         rep.anchor_missing("circuit-breaker admission function")
         return
